@@ -262,8 +262,8 @@ def run_case(case):
 def cases(tier):
     q = tier == "quick"
     out = []
-    for a, b in ((0.0, 1.0), (-1.0, 1.0), (2.0, 4.0)):
-        T = trees.tree_family(4, 6 if q else 8, a, b)
+    for a, b in ((0.0, 1.0), (-1.0, 1.0), (2.0, 4.0), (1048576.0, 1048577.0)):
+        T = trees.tree_family(4, 6 if q else 8, a, b) if a < 1e6 else trees.tree_family(3, 5, a, b)     # far from the origin: smaller family
         for pts, lv in T:
             out.append({"config": {"kind": "ext", "a": a, "b": b, "points": pts, "levels": lv}})
             if _children_ok(lv) == (True, True):
